@@ -49,6 +49,7 @@ theorem apply_prioLoop_nf {N : Nat} {s : State} (hc : Clean s) (e : Ev) (he : e.
   | cancel i => simp [Ev.orderly] at ho
   | throw i x => simp [Ev.orderly] at ho
   | interrupt i x => simp [Ev.orderly] at ho
+  | reinsert i ps => simp [Ev.orderly] at ho
   | setEv ev => rfl
 
 theorem eff_same_graph {s s' : State} (hl : s'.locks = s.locks) (hf : s'.fuel = s.fuel)
@@ -190,6 +191,7 @@ theorem rki_apply {N : Nat} {s : State} (hI : Inv s) (hc : Clean s) (hord : Ord 
   | cancel i => simp [Ev.orderly] at ho
   | throw i x => simp [Ev.orderly] at ho
   | interrupt i x => simp [Ev.orderly] at ho
+  | reinsert i ps => simp [Ev.orderly] at ho
   | setEv ev =>
     have heff : ∀ t, (s.doSetEv ev).eff t = s.eff t := by
       intro t
